@@ -182,7 +182,7 @@ func checkC01(ctx *RunCtx) int {
 
 func checkC04(ctx *RunCtx) int {
 	rep := NewReport()
-	runHands(ctx, rep, 4, ctx.N(2500, 80000), GenOpts{Hostile: true}, commonScenarios(), nil, func() Monitor { return newC04Mon(1) })
+	runHands(ctx, rep, 4, ctx.N(2000, 70000), GenOpts{Hostile: true}, commonScenarios(), nil, func() Monitor { return newC04Mon(1) })
 	return finish(ctx, rep, &CheckSpec{
 		Prop: "C04", Level: "exploration", EvalCounter: "refusal_probes", NonTrivSet: "nontrivial",
 		Rule:        "at every wait point of every generated hand: (A) exactly the seat the turn-order shadow expects is offered actions; (B) on the live game every operation that is not the expected one is called - table operations in the wrong phase, every action on every seat that was not offered it, per-seat forced bets in the wrong phase - and must return an error and leave the JSON state identical (updated_at masked). evaluations = refused calls made; non-trivial = distinct wait points probed",
@@ -610,7 +610,7 @@ func checkC14(ctx *RunCtx) int {
 func checkC15(ctx *RunCtx) int {
 	rep := NewReport()
 	every := 1
-	runHands(ctx, rep, 15, ctx.N(1500, 50000), GenOpts{ShowdownBias: true}, commonScenarios(), nil, func() Monitor { return &C15Mon{every: every} })
+	runHands(ctx, rep, 15, ctx.N(1000, 40000), GenOpts{ShowdownBias: true}, commonScenarios(), nil, func() Monitor { return &C15Mon{every: every} })
 	return finish(ctx, rep, &CheckSpec{
 		Prop: "C15", Level: "exploration", EvalCounter: "oracle_evaluations", NonTrivSet: "nontrivial",
 		Rule:     "for every reachable state of generated hands and every viewer (each seat and the observer), on a JSON clone: the whole JSON text of the view is scanned for card tokens and each must be in board + own hole cards (+ hole cards of non-folded seats once closed); other seats' evaluation absent before close and for folded seats after; the view must equal the state with exactly the stated redaction applied (nothing public changed, own cards kept). evaluations = views checked; non-trivial = distinct states viewed",
